@@ -265,6 +265,8 @@ def run(chk: Check, eng: Engine) -> None:
             chk.bad("R11-c", eng.relfile(m), m.line, m.fq, f"{c.name}.__copy__ does not build a new object", "copy() on a memo hit returns the entry itself", keyparts=f"copy-identity|{c.name}")
 
 
+    chk.rule("R11-f", "a value memoised on a tree node and handed out by reference is immutable", floor=1)
+    memo_by_reference_rule(chk, eng)
     chk.rule("R11-e", "lists the evaluator extends in place come from helpers that build them anew on every call", floor=2)
     fresh_result_rule(chk, eng)
     chk.rule("R11-d", "what a memo hit deep-copies is copyable: the type closure of every deepcopy() argument in a Fitness.__copy__ stays clear of "
@@ -377,6 +379,58 @@ def fresh_result_rule(chk: Check, eng: Engine) -> None:
                                     keyparts=f"shared-result|{callee.name}|{idx}")
     if n_sites < 2:
         raise AnalysisError(f"only {n_sites} in-place mutation(s) of helper results found in the evaluator")
+
+
+def memo_by_reference_rule(chk: Check, eng: Engine) -> None:
+    """R11-f.  What constraint evaluation reads from a tree (value(), hash, size, ...) may be memoised on the node - but a memo that is handed
+    out by reference must hold an immutable value.  An object with in-place mutators (TreeValue normalises itself inside its conversions) that is
+    kept on the node and returned as is gets changed by its readers: the next evaluation of the same tree sees another value than a fresh one."""
+    IMMUTABLE = {"int", "str", "bytes", "float", "bool", "tuple", "frozenset", "NoneType", "None"}
+    n_memo = 0
+    for modn, cn in (("fandango.language.tree", "DerivationTree"), ("fandango.language.tree_value", "TreeValue"), ("fandango.language.symbols.symbol", "Symbol"),
+                     ("fandango.language.symbols.terminal", "Terminal"), ("fandango.language.symbols.non_terminal", "NonTerminal")):
+        try:
+            cls = eng.cls(modn, cn)
+        except Exception:
+            continue
+        anns = cls.instance_attr_annotations()
+        for m in cls.methods.values():
+            # memo idiom: `if self.F is None: ... self.F = v ...` and `return self.F`
+            fields = set()
+            for n in walk_local(m.node):
+                if isinstance(n, ast.If) and isinstance(n.test, ast.Compare) and len(n.test.ops) == 1 and isinstance(n.test.ops[0], ast.Is) and self_attr(n.test.left) \
+                        and isinstance(n.test.comparators[0], ast.Constant) and n.test.comparators[0].value is None:
+                    f_ = self_attr(n.test.left)
+                    if any(isinstance(a, ast.Assign) and any(self_attr(t) == f_ for t in a.targets) for a in ast.walk(n)):
+                        fields.add(f_)
+            for f_ in sorted(fields):
+                rets = [r for r in walk_local(m.node) if isinstance(r, ast.Return) and r.value is not None and self_attr(r.value) == f_]
+                if not rets:
+                    continue
+                n_memo += 1
+                from ..core import ann_class_names
+                tnames = [t for t in ann_class_names(anns.get(f_)) if t not in ("Optional",)]
+                mutable = []
+                for t in tnames:
+                    if t in IMMUTABLE:
+                        continue
+                    for k in eng.ix.classes_by_name.get(t, []):
+                        muts = [mm.name for mm in k.methods.values() if mm.name not in ("__init__", "__post_init__") and
+                                any(isinstance(a, (ast.Assign, ast.AugAssign)) and any(self_attr(x) for x in (a.targets if isinstance(a, ast.Assign) else [a.target])) for a in walk_local(mm.node))]
+                        if muts:
+                            mutable.append((k.name, muts[:3]))
+                    if t not in IMMUTABLE and not eng.ix.classes_by_name.get(t):
+                        mutable.append((t, ["unknown class"]))
+                if not tnames:
+                    raise AnalysisError(f"{m.fq}: cannot type the memo field `{f_}`")
+                if mutable:
+                    chk.bad("R11-f", eng.relfile(m), rets[0].lineno, m.fq, f"the memo `self.{f_}` holds a {mutable[0][0]} and is returned by reference, although {mutable[0][0]} changes itself in {mutable[0][1]}",
+                            "a reader that converts the value (bytes(), str(), int()) normalises the memoised object in place: the same tree evaluated again - from another cache state or by a "
+                            "fresh evaluator - yields a different verdict", keyparts=f"mutable-memo|{cls.name}.{f_}")
+                else:
+                    chk.ok("R11-f", m.fq, rets[0].lineno, f"memo `self.{f_}` holds {tnames}: immutable, safe to hand out by reference")
+    if n_memo < 1:
+        raise AnalysisError("no node-level memo (hash / size) found on DerivationTree")
 
 
 UNCOPYABLE_ATTRS = {"global_variables", "_global_variables"}
@@ -529,6 +583,9 @@ MUTANTS = [
     M("copy-returns-self", _FT, "    def __copy__(self) -> Fitness:\n        return ConstraintFitness(\n            solved=self.solved,\n            total=self.total,\n            success=self.success,\n            failing_trees=self.failing_trees[:],\n            suggestion=copy.deepcopy(self.suggestion),\n        )", "    def __copy__(self) -> Fitness:\n        return self", "R11-c"),
 ]
 MUTANTS += [
+    M("node-value-memoised-by-reference", "src/fandango/language/tree.py", "        aggregate = TreeValue.empty()\n        for child in self._children:\n            aggregate = aggregate.append(child.value())\n        return aggregate\n",
+      "        if self._value_cache is None:\n            aggregate = TreeValue.empty()\n            for child in self._children:\n                aggregate = aggregate.append(child.value())\n            self._value_cache = aggregate\n        return self._value_cache\n", "R11-f",
+      more=(("        self.hash_cache: Optional[int] = None\n", "        self.hash_cache: Optional[int] = None\n        self._value_cache: Optional[TreeValue] = None\n"),)),
     M("shared-trivial-result", _EV, "        if len(constraints) == 0:\n            return 1.0, [], NopSuggestion()\n", "        if len(constraints) == 0:\n            return self._trivially_satisfied\n", "R11-e"),
     M("suggestion-copy-descends-into-grammar", "src/fandango/constraints/repetition_bounds.py", "        memo[id(self._repetition_node)] = self._repetition_node\n", "", "R11-d"),
     M("fitness-copy-copies-failing-tree-causes", _FT, "            failing_trees=self.failing_trees[:],\n            suggestion=copy.deepcopy(self.suggestion),\n", "            failing_trees=copy.deepcopy(self.failing_trees),\n            suggestion=copy.deepcopy(self.suggestion),\n", "R11-d"),
